@@ -6,16 +6,16 @@ pub fn run(ctx: &Ctx) -> Option<Report> {
     Some(match ctx.property.as_str() {
         "C02" => super::progprop::run(&super::p02::prop(), ctx),
         "C03" => super::p03::run(ctx),
-        "C05" => super::progprop::run(&super::p05::prop(), ctx),
-        "C06" => super::progprop::run(&super::p06::prop(), ctx),
-        "C07" => super::progprop::run(&super::p07::prop(), ctx),
-        "C08" => super::progprop::run(&super::p08::prop(), ctx),
-        "C09" => super::progprop::run(&super::p09::prop(), ctx),
-        "C10" => super::progprop::run(&super::p10::prop(), ctx),
-        "C11" => super::progprop::run(&super::p11::prop(), ctx),
-        "C12" => super::progprop::run(&super::p12::prop(), ctx),
-        "C13" => super::progprop::run(&super::p13::prop(), ctx),
-        "C14" => super::progprop::run(&super::p14::prop(), ctx),
+        "C05" => super::p05::run(ctx),
+        "C06" => super::p06::run(ctx),
+        "C07" => super::p07::run(ctx),
+        "C08" => super::p08::run(ctx),
+        "C09" => super::p09::run(ctx),
+        "C10" => super::p10::run(ctx),
+        "C11" => super::p11::run(ctx),
+        "C12" => super::p12::run(ctx),
+        "C13" => super::p13::run(ctx),
+        "C14" => super::p14::run(ctx),
         _ => return None,
     })
 }
@@ -24,16 +24,16 @@ pub fn replay(ctx: &Ctx, case: &Value) -> Option<Report> {
     Some(match ctx.property.as_str() {
         "C02" => super::progprop::replay(&super::p02::prop(), ctx, case),
         "C03" => super::p03::replay(ctx, case),
-        "C05" => super::progprop::replay(&super::p05::prop(), ctx, case),
-        "C06" => super::progprop::replay(&super::p06::prop(), ctx, case),
-        "C07" => super::progprop::replay(&super::p07::prop(), ctx, case),
-        "C08" => super::progprop::replay(&super::p08::prop(), ctx, case),
-        "C09" => super::progprop::replay(&super::p09::prop(), ctx, case),
-        "C10" => super::progprop::replay(&super::p10::prop(), ctx, case),
-        "C11" => super::progprop::replay(&super::p11::prop(), ctx, case),
-        "C12" => super::progprop::replay(&super::p12::prop(), ctx, case),
-        "C13" => super::progprop::replay(&super::p13::prop(), ctx, case),
-        "C14" => super::progprop::replay(&super::p14::prop(), ctx, case),
+        "C05" => super::p05::replay(ctx, case),
+        "C06" => super::p06::replay(ctx, case),
+        "C07" => super::p07::replay(ctx, case),
+        "C08" => super::p08::replay(ctx, case),
+        "C09" => super::p09::replay(ctx, case),
+        "C10" => super::p10::replay(ctx, case),
+        "C11" => super::p11::replay(ctx, case),
+        "C12" => super::p12::replay(ctx, case),
+        "C13" => super::p13::replay(ctx, case),
+        "C14" => super::p14::replay(ctx, case),
         _ => return None,
     })
 }
